@@ -400,6 +400,10 @@ def scalar_and_message_legs(ck, rnd, tier):
         ck.evaluated()
         hb, sb = rnd.choice([512, 768, 1023, 1024, 2048]), rnd.choice([512, 768, 1024])
         hn, sn = rnd.getrandbits(hb) | (1 << (hb - 1)), rnd.getrandbits(sb) | (1 << (sb - 1))
+        if rnd.random() < 0.3:
+            hn >>= rnd.choice([1, 2, 9])        # the declared size is a field of its own: it need not be the bit length of the modulus
+        if rnd.random() < 0.3:
+            sn >>= 1
         he, se = rnd.choice([3, 35, 65537]), rnd.choice([3, 65537])
         body = (bytes(rnd.getrandbits(8) for _ in range(8)) + wire.u32(sb) + wire.mpint1(se) + wire.mpint1(sn) + wire.u32(hb) + wire.mpint1(he)
                 + wire.mpint1(hn) + wire.u32(rnd.choice([0, 2])) + wire.u32(rnd.getrandbits(7)) + wire.u32(rnd.getrandbits(6) << 1))
